@@ -705,3 +705,28 @@ NOT_APPLICABLE = {
     'C13': "byte-level reproducibility of three generator executables over a file tree: no executable Lean model short of a model of "
            "gombok/text-template themselves expresses it; a `decide` over two byte strings would be a restated test, not a theorem",
 }
+
+# ---- session 6: regenerated ties (Tie A translators, Tie C atomic-step facts) -------------------------------------------------
+_TIE_A_MONAD = (' Session 6, Tie A: harness/cmd/monad2lean TRANSLATES option/try/either/statet *_monad.go and *_traverse.go (89 functions x 4 packages) '
+                'of the working tree into Lean definitions over MonadOps on every run (FpVerif/Gen/MonadGen.lean); Spec/C01Gen (163 theorems) states '
+                'translated = Model/MonadFamily definition (rfl, or for every Lawful instance), that the four packages carry one template, the expected '
+                'function table, and transports C01/C02/C17 theorems to the translated code. Trusted there: the translator and Model/MonadGenPrelude.lean '
+                '(18 one-line readings of pure helpers).')
+_TIE_A_ARITY = (' Session 6, Tie A: harness/cmd/go2lean2 TRANSLATES the 15 generated pure arity files (655 declarations: curried, as, fp tuple/labelled/func, '
+                'hlist, product, fn1.Merge, unit.Func) of the working tree (FpVerif/Gen/ArityGen.lean); Spec/C14ArityGen (688 theorems): per family and '
+                'arity translated = Model/Arity at n := N, coverage against internal/max/max.go, 9 C14 theorems transported.')
+_TIE_C_ATOM = (' Session 6, Tie C: harness/cmd/atomfacts extracts from the working tree, per function, the shape of shared-memory events (yield, load, store, '
+               'cas, lock, once.Do, append, callbacks) (FpVerif/Gen/AtomFacts.lean); Spec/C05Facts, C19Facts, C06Facts, C16AtomFacts (44 theorems, '
+               'decide +kernel): one yield in front of every access on every path, Lipton-reducible blocks, per-function skeleton = the skeleton of the '
+               'Lean step machine, the set of functions reaching the cell. Trusted there: the extractor and the mover classification of Model/AtomShape.lean.')
+for _pid in ('C01', 'C02', 'C17'):
+    CHECKS[_pid]['modelled'] = CHECKS[_pid].get('modelled', '') + _TIE_A_MONAD
+    CHECKS[_pid]['technique'] = ('Lean 4 proof over hand-written executable model + regenerated Go->Lean translation of the generated monad family '
+                                 'proved equal to the model (Tie A) + differential correspondence check')
+CHECKS['C14']['modelled'] = CHECKS['C14'].get('modelled', '') + _TIE_A_MONAD + _TIE_A_ARITY
+CHECKS['C14']['technique'] = ('Lean 4 proof over hand-written arity-generic model + regenerated Go->Lean translation of the generated families proved '
+                              'equal to the model per arity (Tie A) + differential correspondence check')
+for _pid in ('C05', 'C06', 'C19', 'C16'):
+    CHECKS[_pid]['modelled'] = CHECKS[_pid].get('modelled', '') + _TIE_C_ATOM
+    CHECKS[_pid]['technique'] = ('Lean 4 proof over hand-written executable step-machine model + regenerated atomic-step facts decided by the kernel '
+                                 '(Tie C) + differential correspondence check at yield-hook granularity')
